@@ -17,12 +17,13 @@ for n in names:
         print(n,'PATCH DOES NOT APPLY',p.stdout[:200]); shutil.rmtree(d); continue
     meta=json.load(open('/verif/seeded/%s/meta.json'%n))
     hits={}
-    for pr in (props or ALL):
-        vd=tempfile.mkdtemp(prefix='/tmp/seedverif.'); os.mkdir(vd+'/evidence'); shutil.copy('/verif/known_findings.json',vd)
-        o=subprocess.run(['/verif/bin/hlint','-property',pr,'-repo',d,'-verif',vd],capture_output=True,text=True).stdout
-        h=[l for l in o.splitlines() if l.startswith(('VIOLATED','UNDECIDED'))]
-        if h: hits[pr]=h
-        shutil.rmtree(vd)
+    vd=tempfile.mkdtemp(prefix='/tmp/seedverif.'); os.mkdir(vd+'/evidence'); shutil.copy('/verif/known_findings.json',vd)
+    o=subprocess.run(['/verif/bin/hlint','-property',props[0] if props and len(props)==1 else 'all','-repo',d,'-verif',vd],capture_output=True,text=True).stdout
+    cur=None
+    for l in o.splitlines():
+        if l.startswith('property C'): cur=l.split()[1]
+        elif l.startswith(('VIOLATED','UNDECIDED')) and (not props or cur in props): hits.setdefault(cur,[]).append(l)
+    shutil.rmtree(vd)
     shutil.rmtree(d)
     tot+=1
     own=meta['property'] in hits
